@@ -118,10 +118,10 @@ def same_floats(a, b):
 
 
 def active_name(df):
-    """name of the active geometry column of a pandas / Dask geo frame (None if invalid)"""
+    """name of the active geometry column of a pandas / Dask geo frame (None if invalid),
+    read through the public `.geometry` accessor"""
     try:
-        m = getattr(df, '_meta', df)
-        return m.geometry.name
+        return df.geometry.name
     except Exception:
         return None
 
